@@ -8,7 +8,7 @@
 From PahoV Require Import Base.Prelude.
 
 (* what _packet_write looks at in packet['command'] / packet['qos'] *)
-Inductive pkind := KPub0 (* PUBLISH with qos 0 *) | KDisc (* DISCONNECT *) | KOther.
+Inductive pkind := KPub0 (* PUBLISH with qos 0 *) | KDisc (* DISCONNECT *) | KOther | KConn (* CONNECT: queued at the head *).
 
 Record opkt := mkpkt {
   p_bytes : list Z;      (* packet['packet'] *)
@@ -121,6 +121,7 @@ Definition advance (p : opkt) (n : Z) : opkt :=
 
 Definition is_pub0 (p : opkt) : bool := match p_kind p with KPub0 => true | _ => false end.
 Definition is_disc (p : opkt) : bool := match p_kind p with KDisc => true | _ => false end.
+Definition is_conn (p : opkt) : bool := match p_kind p with KConn => true | _ => false end.
 
 (* the QoS 0 branch: on_publish (may raise), then info._set_as_published().  None = exception propagates *)
 Definition pub0_events (c : cfg) (p : opkt) : list event * bool (* raised *) :=
@@ -160,6 +161,8 @@ Fixpoint packet_write_fuel (fuel : nat) (c : cfg) (st : wstate) (s : list outcom
             let '(evp, raised) := pub0_events c p' in
             if raised then (st1, ev2 ++ evp, RcRaised, s1)
             else if is_disc p' then
+              (* _do_on_disconnect; if self._sock is disconnected_sock: self._sock_close()
+                 (the model's on_disconnect does not reconnect) *)
               let '(st2, evc) := sock_close st1 in
               (st2, ev2 ++ evp ++ [CbDisconnect] ++ evc, RcSuccess, s1)
             else
@@ -180,7 +183,7 @@ Definition packet_write (c : cfg) (st : wstate) (s : list outcome) :=
 Definition want_write (st : wstate) : bool :=
   match outq st with [] => false | _ => true end.
 
-(* _loop_rc_handle for rc = CONN_LOST: _sock_close(); state change; _do_on_disconnect *)
+(* _loop_rc_handle for rc = CONN_LOST: state change; _sock_close(); _do_on_disconnect *)
 Definition loop_rc_handle (st : wstate) : wstate * list event :=
   let '(st1, ev) := sock_close st in (st1, ev ++ [CbDisconnect]).
 
@@ -205,10 +208,11 @@ Definition loop_write (c : cfg) (st : wstate) (s : list outcome)
 Definition fresh_pkt (id : Z) (bs : list Z) (k : pkind) (cbr : bool) : opkt :=
   mkpkt bs 0 (zlen bs) k id cbr.
 
-(* _packet_queue.  in_cb: _in_callback_mutex is held (the call comes from inside a user callback) *)
+(* _packet_queue.  in_cb: _in_callback_mutex is held (the call comes from inside a user callback).
+   if command == CONNECT: self._out_packet.appendleft(mpkt) else: self._out_packet.append(mpkt) *)
 Definition enqueue (c : cfg) (in_cb : bool) (st : wstate) (p : opkt) (s : list outcome)
   : wstate * list event * rcode * list outcome :=
-  let st1 := set_outq st (outq st ++ [p]) in
+  let st1 := set_outq st (if is_conn p then p :: outq st else outq st ++ [p]) in
   if negb (c_ext c) && negb in_cb then loop_write c st1 s
   else let '(st2, ev) := call_reg_write st1 in (st2, ev, RcSuccess, s).
 
@@ -236,6 +240,13 @@ Definition step (c : cfg) (r : rstate) (o : op) : rstate :=
   end.
 
 Definition init (t0 : T) : rstate := mkrs (mkst [] true false t0) [] [] [].
+
+(* CONNECT is the first packet queued on the connection (hypothesis of the theorems; without it see
+   C06_stream_refuted): no later operation queues a CONNECT *)
+Definition not_conn_op (o : op) : bool :=
+  match o with OEnq _ _ KConn _ _ => false | _ => true end.
+Definition conn_first (ops : list op) : bool :=
+  match ops with [] => true | _ :: rest => forallb not_conn_op rest end.
 
 Definition run (c : cfg) (t0 : T) (ops : list op) : rstate := fold_left (step c) ops (init t0).
 
@@ -286,7 +297,7 @@ Definition raw_run (c : cfg) (ops : list op) : rstate unit := run unit raw_send 
 Definition b2z (b : bool) : Z := if b then 1 else 0.
 Definition dec_outcome (z : Z) : outcome :=
   if 0 <=? z then Accept z else if z =? -1 then Block else if z =? -2 then Fail else FailV.
-Definition dec_kind (z : Z) : pkind := if z =? 0 then KPub0 else if z =? 1 then KDisc else KOther.
+Definition dec_kind (z : Z) : pkind := if z =? 0 then KPub0 else if z =? 1 then KDisc else if z =? 3 then KConn else KOther.
 Definition take (n : Z) (l : list Z) : list Z * list Z := (ztake n l, zskip n l).
 
 (* op encoding:  0 in_cb kind cbraise len b1..blen ns o1..ons   |   1 ns o1..ons
